@@ -76,7 +76,31 @@ def mutate_once(a, D, leaf=scalars):
                                               (v if (chg and j == i % max(len(a), 1)) else vv)
                                               for j, (kk, vv) in enumerate(a.items())},
                       st.integers(0, 10), st.sampled_from(['x', '2', 'rev']), D, st.booleans()))
+    if isinstance(a, (int, float)) and not isinstance(a, bool) and a == a and abs(a) < 2 ** 53 and a == int(a):
+        # the equal number of the other type (1 <-> 1.0): equal as a value, different as a node (size, spelling)
+        return st.one_of(st.just(a), leaf, st.just(float(a) if isinstance(a, int) else int(a)))
     return st.one_of(st.just(a), leaf)
+
+
+@st.composite
+def mixed_size_list_cases(draw):
+    """short lists of strings of different sizes that are prefixes / near-copies of each other, some shifted by one position:
+    alignments in which a small element reappears next to a similar, larger neighbour"""
+    pool = ['b', 'ba', 'bar', 'baz', 'a', 'ab', 'abcabc', 'q', 1, 1.0, 'barbar']
+    L = st.lists(st.sampled_from(pool), min_size=1, max_size=4)
+    a = draw(L)
+    k = draw(st.integers(0, 3))
+    if k == 0:
+        b = draw(L)
+    elif k == 1:
+        b = [draw(st.sampled_from(pool))] + a
+    elif k == 2:
+        b = a[1:] + [draw(st.sampled_from(pool))]
+    else:
+        b = [draw(st.sampled_from(pool)) if draw(st.integers(0, 2)) == 0 else x for x in a] + draw(st.lists(st.sampled_from(pool), max_size=1))
+    if draw(st.booleans()):
+        a, b = {'l': a, 'k': 'v'}, {'l': b, 'k': 'v'}
+    return {'family': 'json', 'a': a, 'b': b, 'ds': 'auto', 'le': 'on'}
 
 
 @st.composite
